@@ -627,6 +627,7 @@ package termincommittee
 //@     invariant [ghost-frame] forall gv int :: ppStored[gv] == old(ppStored[gv]) && ppHash[gv] == old(ppHash[gv]) && sentPrepare[gv] == old(sentPrepare[gv]) && sentCommit[gv] == old(sentCommit[gv]) && sentPrepareHash[gv] == old(sentPrepareHash[gv]) && sentCommitHash[gv] == old(sentCommitHash[gv]) && proposed[gv] == old(proposed[gv])
 
 //@ func (*TermInCommittee).onElectedByViewChange
+//@   assert before call sendConsensusMessage [O15.6.a-fresh-proposal-is-sent-only-under-a-context-observed-live-after-the-request] (exists bk :: 0 <= bk && bk < len(viewChangeMessages) && viewChangeMessages[bk].block != nil) || lastCtxErrNil
 //@   assert before call For [O15.7.proposal-requested-under-the-context-of-its-own-view] $hv.height == tic.State.height && $hv.view == view
 //@   ensures [view-monotone] tic.State.view >= old(tic.State.view) && tic.State == old(tic.State) && lastVC == old(lastVC)
 //@   requires [term-not-yet-committed] ncommitted == 0
